@@ -20,7 +20,7 @@ Lemma sat_float_in_range f v c : 1 <= nw f <= 53 ->
   elem_gt (NF v) (cmax f) = false -> elem_lt (NF v) (cmin f) = false -> f64_trunc_Z v = Some c -> in_range f c.
 Proof.
   intros Hw Hgt Hlt Ht. destruct (cmax_bound53 f Hw) as (Hcx & Hcn).
-  unfold elem_gt, elem_lt in *. rewrite f64_of_Z_exact in Hgt, Hlt by assumption.
+  unfold elem_gt, elem_lt in *.
   destruct v as [m e| |]; try discriminate. unfold f64_trunc_Z in Ht.
   unfold f64_ltb, f64_cmp in Hgt, Hlt.
   destruct (cmin_le_cmax f ltac:(lia)) as (Hr & Hc0).
